@@ -71,6 +71,11 @@ CLAIMS["C16"] = dict(
   text="Decides on /repo's current tree: the six near-copies of the property arithmetic in Substance::get, to_reply and get_in_unit compute exactly the reference operation trees over (amount, input, output) - output*amount/input for dimensionless amounts; input/amount, output/amount, output/(input/amount), input/(output/amount) otherwise - and pair them with output_name/input_name consistently; Substance::get returns a number for a dimensioned amount only behind dimless() of the corresponding ratio and otherwise Conformance(amount, the property's own side); Mul/Div by a number change only `amount`; Expr::Of maps both error kinds; substance_from_formula turns every token other than a known symbol (+count) into None, adds count x molar mass of the matched symbol for every occurrence (no keyed overwrite), and returns Some only behind a flag set in the symbol arm; substance_symbols only ever names an inserted substance. Linearity/inversion as numeric identities then follow from exact Number arithmetic (C01); that the database's ~200 substances carry the right numbers is data and not claimed.",
   note="Trusted: the reference tree table in rules/c16.py (an algebraically equivalent rewrite of all copies needs a table update); driver; num-rational exactness.",
   design_ref="DESIGN.md section 4, C16")
+CLAIMS["C14"] = dict(
+  technique="gate/def-use analysis on MIR (range gates, checked arithmetic, scale-constant extraction), who-may-call for unchecked chrono operators, HIR keyword-table extraction compared with datepatterns.txt, sibling agreement of the two offset spellings",
+  text="Decides on /repo's current tree: the Offset conversion's FixedOffset is east_opt's Some value with None turned into an error (no unwrap, no truncating cast); to_duration builds chrono Durations only behind the unit-is-seconds and magnitude tests and from to_int()'s Some value; instant +- duration uses checked_add_signed/checked_sub_signed fed by to_duration(..)? with None mapped to an error and no unchecked DateTime+-Duration operator exists in rink_core; re-zoning only delegates to DateTime::with_timezone and the reply is built from the re-zoned value; every keyword of datepatterns.txt has a parse_date arm and the ten numeric keywords have the documented digit counts and ranges; the scale constants of to_duration (10^3, then 10^6 for the sub-millisecond remainder) and from_duration (10^3, 10^9) are consistent; both numeric offset spellings compute sign*(h*3600+m*60). The round-trip laws themselves and the Gregorian calendar are chrono's behaviour and values, not decided.",
+  note="Trusted: chrono's documented contracts (with_timezone preserves the instant, checked_* return None on overflow), the keyword range table in rules/c14.py.",
+  design_ref="DESIGN.md section 4, C14")
 NA = {
  "C05": "digit strings, recurring-block offsets and the 1-ulp truncation bound are number-theoretic facts about runtime values of p/q and the base; no structural clause is a genuine necessary condition (DESIGN.md section 4, C05)",
 }
